@@ -14,6 +14,8 @@ PAbsR == [kind |-> "aligned", w |-> 6, h |-> 4, ha |-> 2, va |-> 2]   \* same pa
 PExactR == [kind |-> "exact", l |-> 2, t |-> 1, r |-> 1, b |-> 0]       \* same padded size as PExact
 PadsTwo == {NoPad, PAbs, PAbsR}
 PadsEx == {NoPad, PExact}
+TermsTwo == {<<8, 6>>, <<5, 4>>}   \* Resize switches between the initial size and a smaller one
+TermsNone == {}
 Offs2 == -3..3
 Offs3 == -4..4
 =============================================================================
